@@ -1620,7 +1620,6 @@ func (bc *boundsCtx) splitFacts(a atom, at ssa.Instruction) []lin {
 	return nil
 }
 
-
 // ---- rendering -------------------------------------------------------------------------------------
 
 func (bc *boundsCtx) atomName(a atom) string {
